@@ -218,8 +218,10 @@ def str_elems(s):
 
 class Redirect:
     """returned by a model: perform this call instead (e.g. sync.Pool.Get -> pool.New())"""
-    __slots__ = ('callee', 'args')
+    __slots__ = ('callee', 'args', 'stay', 'ins')
 
-    def __init__(self, callee, args):
+    def __init__(self, callee, args, stay=False, ins=None):
         self.callee = callee
         self.args = args
+        self.stay = stay      # re-execute the calling instruction afterwards (used to drain a queue)
+        self.ins = ins
